@@ -179,8 +179,9 @@ class T:
             else:
                 yield e, cond
         for tr_alt, tr_cond in alternatives(tr, z3.BoolVal(True)):
-            if z3.is_app(tr_alt) and tr_alt.decl().name() == "gf_edit_tr" and tr_alt.num_args() == 5 and tr_alt.arg(0).eq(g.t):
-                self._c06_instance(I, tr_alt, tr_cond, request, rq, ad, t2, w, alternatives)
+            if z3.is_app(tr_alt) and tr_alt.decl().name() == "gf_edit_tr" and tr_alt.num_args() == 5:
+                # (that the earlier edit was G's is a semantic premise too: the function may be written tr_genfn(slice) there)
+                self._c06_instance(I, tr_alt, z3.And(tr_cond, tr_alt.arg(0) == g.t), request, rq, ad, t2, w, alternatives)
 
     def _c06_instance(self, I, tr, tr_cond, request, rq, ad, t2, w, alternatives):
         a = [tr.arg(j) for j in range(5)]
